@@ -97,6 +97,31 @@ def history_model(rng, k, tier, like=None):
     return ops, ending
 
 
+def orphan_ops(rng):
+    """Objects created while no PEP exists yet (a session that plays with the DSL before its first `PEP()`)."""
+    ops = []
+    pts = []
+    for i in range(rng.choice([1, 2, 3])):
+        ops.append({"op": "newpoint", "out": "o_p%d" % i})
+        pts.append("o_p%d" % i)
+    if rng.random() < 0.6:
+        ops.append({"op": "newexpr", "out": "o_e0"})
+    if rng.random() < 0.7:
+        cls, params = rng.choice([("SmoothConvexFunction", {"L": 1.0}), ("ConvexFunction", {}),
+                                  ("SmoothStronglyConvexFunction", {"mu": 0.1, "L": 1.0}),
+                                  ("LipschitzOperator", {"L": 1.0})])
+        ops.append({"op": "ofunc", "out": "o_f", "cls": cls, "params": params})
+        if rng.random() < 0.7:
+            ops.append({"op": "gradient", "out": "o_g", "f": "o_f", "x": pts[0]})
+            pts.append("o_g")
+    if len(pts) >= 2 and rng.random() < 0.5:
+        ops.append({"op": "plin", "out": "o_q", "terms": [[pts[0], 1.0], [pts[1], -0.5]]})
+        ops.append({"op": "sq", "out": "o_s", "a": "o_q"})
+    if rng.random() < 0.3:
+        ops.append({"op": "opartition", "out": "o_B", "d": rng.choice([2, 3])})
+    return ops
+
+
 ENUM_VARIANTS = [("gd", 1, 0, "cvxpy", []), ("gd", 1, 1, "cvxpy", ["lmi_sym"]), ("pgd", 1, 1, "cvxpy", ["lmi_func"]),
                  ("bcd", 1, 0, "cvxpy", []), ("gd_qg", 1, 0, "mosek", []), ("linear", 1, 2, "mosek", ["part_cons"]),
                  ("gd", 2, 0, "cvxpy", ["extra_metric"]), ("operator", 1, 1, "mosek", ["eq_cons"])]
@@ -167,6 +192,15 @@ class C12(Prop):
             hist = ops + [s]
             endings = ["enum:v%d:%d/%d" % (variant, at, total)]
             k = 0
+        orphans = []
+        r_orph = rng.random()
+        if r_orph < 0.2 and k > 0:
+            # the session creates DSL objects before its very first PEP()
+            orphans = orphan_ops(rng)
+            if r_orph < 0.1:
+                k = 0          # ... and model B is that first PEP
+            endings = ["orphans"] + endings
+            hist = orphans + hist
         bseed = rng.randrange(1 << 30)
         import random as _random
         brng = _random.Random(bseed)
